@@ -1693,3 +1693,93 @@ func (r *Run) rootLabel(fn *Func) string {
 	}
 	return fn.root().origOrSelf().Name
 }
+
+// ruleQueueDrained (G10): a queue of the connection into which other goroutines send with a blocking send is
+// emptied when its consumer stops — a deferred loop that receives from it, in a literal or in a function deferred
+// by name. Without it a sender that was blocked on the full queue when the consumer stopped stays blocked for
+// good: the connection's main loop never processes the disconnect, the participant never leaves, and relays to
+// it hold the session's membership lock.
+func ruleQueueDrained(r *Run) {
+	if r.broken() {
+		return
+	}
+	need := map[*types.Var]token.Pos{}
+	for _, s := range r.chanSites() {
+		if s.Send && s.Blocking && !s.Close && s.Owner == "handler" {
+			if _, ok := need[s.Field]; !ok {
+				need[s.Field] = s.Pos
+			}
+		}
+	}
+	drained := map[*types.Var]bool{}
+	// receives inside a for loop of body; resolve maps a channel expression of holder to the field it stands for
+	scan := func(holder *Func, body *ast.BlockStmt, resolve func(x ast.Expr) *types.Var) {
+		ast.Inspect(body, func(nd ast.Node) bool {
+			loop, ok := nd.(*ast.ForStmt)
+			if !ok {
+				if rs, isRange := nd.(*ast.RangeStmt); isRange {
+					if fv := resolve(rs.X); fv != nil {
+						drained[fv] = true // for range ch (until closed / empty)
+					}
+				}
+				return true
+			}
+			ast.Inspect(loop.Body, func(k ast.Node) bool {
+				if u, ok := k.(*ast.UnaryExpr); ok && u.Op == token.ARROW {
+					if fv := resolve(u.X); fv != nil {
+						drained[fv] = true
+					}
+				}
+				return true
+			})
+			return true
+		})
+	}
+	for _, fn := range r.P.All {
+		if fn.Body == nil || fn.Pkg.PkgPath != pkgWS {
+			continue
+		}
+		fn := fn
+		ast.Inspect(fn.Body, func(nd ast.Node) bool {
+			ds, ok := nd.(*ast.DeferStmt)
+			if !ok {
+				return true
+			}
+			if lit, isLit := ast.Unparen(ds.Call.Fun).(*ast.FuncLit); isLit {
+				scan(fn, lit.Body, func(x ast.Expr) *types.Var { fv, _ := r.chanField(fn, x); return fv })
+				return true
+			}
+			g, _ := calleeObj(fn.Info(), ds.Call).(*types.Func)
+			gd := r.P.Funcs[g]
+			if gd == nil || gd.Body == nil {
+				return true
+			}
+			scan(gd, gd.Body, func(x ast.Expr) *types.Var {
+				// a parameter of the deferred function: the argument at the defer
+				if id, isID := ast.Unparen(x).(*ast.Ident); isID {
+					if pv, ok := gd.Info().Uses[id].(*types.Var); ok {
+						if k := paramIndex(gd, pv); k >= 0 && k < len(ds.Call.Args) {
+							fv, _ := r.chanField(fn, ds.Call.Args[k])
+							return fv
+						}
+					}
+				}
+				fv, _ := r.chanField(gd, x)
+				return fv
+			})
+			return true
+		})
+	}
+	n := 0
+	var fields []*types.Var
+	for fv := range need {
+		fields = append(fields, fv)
+	}
+	sort.Slice(fields, func(i, j int) bool { return fields[i].Name() < fields[j].Name() })
+	for _, fv := range fields {
+		n++
+		r.Check("G10", "handler."+r.P.FieldName(fv)+":drained-when-its-consumer-stops", drained[fv], need[fv],
+			"other goroutines send into the connection's queue %s with a blocking send, and nothing empties it when its consumer stops (no deferred receive loop): a sender blocked on the full queue at that moment stays blocked, the connection is never cleaned up and its participant never leaves", r.P.FieldName(fv))
+	}
+	r.Floor("G10", "connection queues with blocking foreign senders", n, 1)
+}
